@@ -273,10 +273,17 @@ func c02OneFrameOnePacket(c *core.Ctx) {
 }
 
 func calleeNameOf(c *ast.CallExpr) string {
-	if se, ok := c.Fun.(*ast.SelectorExpr); ok {
+	f := ast.Unparen(c.Fun)
+	switch x := f.(type) {
+	case *ast.IndexExpr:
+		f = x.X
+	case *ast.IndexListExpr:
+		f = x.X
+	}
+	if se, ok := f.(*ast.SelectorExpr); ok {
 		return se.Sel.Name
 	}
-	if id, ok := c.Fun.(*ast.Ident); ok {
+	if id, ok := f.(*ast.Ident); ok {
 		return id.Name
 	}
 	return ""
